@@ -6,7 +6,8 @@ EXPLANATION = ("Decides on the MIR of the current tree: who may block/wake lock 
                "condition comes from the lock's own state (D2), the release/acquire happens-before edges of both locks (Y1 lock rows), the "
                "writers of the lock-holder fields and their guards (L1), that try_*/acquire results are the value computed by post_acquire (L2), "
                "the pairing of the rt bookkeeping with the inner std lock in the public front-ends and guards (L3) and that get_mut/into_inner "
-               "only forward to the std lock (L4). Exclusion in every explored execution (behaviour) is not decided.")
+               "only forward to the std lock (L4). Exclusion in every explored execution (behaviour) is not decided."
+               " The block loop of post_acquire* is unconditional on the success path (S5b); the reader/writer arms of post_acquire_read_lock are decided on lock-state scenarios (L1r); G0/G1 cross-check the block/wake steps.")
 RULE_TEXT = ("rule instances = transition sites, lock-field writers, front-end methods; non-trivial when matched to concrete MIR sites")
 LEVEL_NOTE = "necessary conditions only"
 
